@@ -277,17 +277,18 @@ def exercise_position_decoys(F, TR, dirstub, radii_arr, mkarr, dv, tag="A"):
 FULL_GETTERS = ("get_full_grid_as_array", "get_total_volumes", "get_full_adjacency", "get_full_borders", "get_full_distances", "get_full_prefactors")
 
 
-def exercise_full_decoys(F, TR, Vm, n_b, dirstub, radii_arr, factor, mkarr, dv, G=None, full_stub=None, tag="A"):
+def exercise_full_decoys(F, TR, Vm, n_b, dirstub, radii_arr, factor, mkarr, dv, G=None, full_stub=None, tag="A", FULL_GETTERS=FULL_GETTERS, POS_GETTERS=POS_GETTERS):
     """FullGrid decoys: another factor + colliding radial grid; a Cartesian twin with the SAME names and factor"""
     from harness.common import bound
     n_t = len(radii_arr)
+    # construction order: the decoy that differs most (other factor, other radii under the same name) is constructed LAST (state written by
+    # constructors) and asked FIRST (state written by getters, e.g. caches keyed by the lossy name)
     with bound(F, Voronoi=_NoQhull):
         d2 = make_fullgrid(F, TR, Vm, n_b, dirstub, radii_arr.copy(), factor, G, full_stub, cartesian=True)
     _stub_cartesian_getters(d2.position_grid, mkarr, dv, tag)
-    _ask(d2, FULL_GETTERS)
-    _ask(d2.position_grid, POS_GETTERS)
-    # the decoy that differs most (other factor, other radii under the same name) is the one constructed and asked LAST
     d1 = make_fullgrid(F, TR, Vm, n_b, dirstub, decoy_radii(n_t, mkarr, dv, tag), dv(f"{tag}f"), G, full_stub)
     _ask(d1, FULL_GETTERS)
     _ask(d1.position_grid, POS_GETTERS)
+    _ask(d2, FULL_GETTERS)
+    _ask(d2.position_grid, POS_GETTERS)
     return d1, d2
